@@ -1,6 +1,6 @@
 (* C07FinalProofs.v — the statements of C07Theorems.v, assembled from the proof files. *)
 From V.lib Require Import Base.
-From V.c07 Require Import C07Model C07Spec C07IvProofs C07RangeProofs C07CryptProofs.
+From V.c07 Require Import C07Model C07Spec C07IvProofs C07RangeProofs C07CryptProofs C07CbcsProofs C07AuxProofs.
 
 (* AppendProtectRange: for ALL counts (no bound): the appended entries describe exactly nrClear clear bytes
    followed by nrProt protected bytes, and every clear count it writes is < 2^16 *)
@@ -101,3 +101,38 @@ Proof.
   - intros e He. apply prot_total_blocks. exact He.
   - apply (no_counter_reuse E protfunc key samples iv encs Hl Hb Henc Htot).
 Qed.
+
+Lemma cbcs_matches_reference_final :
+  forall (E D : list N -> list N -> list N) (key : list N),
+  (forall k b, length (E k b) = 16%nat) ->
+  (forall k b, length (D k b) = 16%nat) ->
+  forall (dec : bool) (iv : list N) (ssps : list ssp) (cb sb : N) (sample : list N),
+  key_ok key = true -> length iv = 16%nat ->
+  sumN (map (fun p => ss_clear p + ss_prot p) ssps) <= lenN sample ->
+  lenN sample < 4294967296 ->
+  crypt_sample_cbcs E D dec key iv ssps cb sb sample = Ok (ref_cbcs E D dec key iv ssps cb sb sample).
+Proof. exact crypt_sample_cbcs_ref. Qed.
+
+Lemma aux_info_final : forall b iv ssps b',
+  ssps <> [] -> saiz_add b iv ssps = Ok b' ->
+  sz_info b' = sz_info b ++ [lenN (entry_bytes iv ssps) mod 256] /\
+  sz_count b' = sz_count b + 1 /\
+  (lenN (entry_bytes iv ssps) < 256 -> sz_info b' = sz_info b ++ [lenN (entry_bytes iv ssps)]).
+Proof. exact aux_info_size. Qed.
+
+Lemma aux_entry_final : forall s i iv ssps,
+  0 <? sn_ivsize s = true -> sn_subs s = true ->
+  nth_error (sn_ivs s) i = Some iv -> nth_error (sn_ss s) i = Some ssps ->
+  senc_entry s i = Ok (entry_bytes iv ssps) /\ lenN (entry_bytes iv ssps) = lenN iv + 2 + 6 * lenN ssps.
+Proof. intros s i iv ssps H1 H2 H3 H4. split; [apply senc_entry_bytes; assumption|apply entry_bytes_len]. Qed.
+
+Lemma aux_info_overflow_final :
+  exists iv ssps b',
+    lenN iv = 16 /\ lenN ssps = 40 /\
+    saiz_add saiz_empty iv ssps = Ok b' /\ sz_info b' = [2] /\ lenN (entry_bytes iv ssps) = 258.
+Proof. exact aux_info_overflow. Qed.
+
+Lemma saio_offset_final : forall before pre z post,
+  forallb (fun x => negb (fst x)) pre = true -> forallb (fun x => negb (fst x)) post = true ->
+  saio_offset before (pre ++ (true, z) :: post) = 8 + sumN before + 8 + sumN (map snd pre) + 16.
+Proof. exact saio_offset_spec. Qed.
